@@ -174,6 +174,8 @@ structure RealOut where
   status : String            -- Modified | NotModified | Cancelled | other outcome
   content : String
   metricsCount : Nat
+  file : String := ""
+  metricsFile : Option String := none
   metricsDebug : Option (List (String × Nat))
 
 def shortN (r : RealOut) (n : Node) : String := Node.short r.pfx n
@@ -284,6 +286,9 @@ def checkC15 (r : RealOut) : List Finding :=
   let expected := match r.cfg.verbosity with | .off => 0 | _ => names.length
   (if r.metricsCount != expected then
     [⟨"C15", "count-differs-from-hook-sites", s!"reported {r.metricsCount}, hook sites {names.length}"⟩] else []) ++
+  (match r.metricsFile with
+   | some f => if f != r.file then [⟨"C15", "reported-file-is-not-the-file-of-the-call", s!"reported {f}, called with {r.file}"⟩] else []
+   | none => []) ++
   (match r.cfg.verbosity, r.metricsDebug with
    | .debug, some dbg =>
      (if debugPartitions r.cfg dbg names then [] else [⟨"C15", "debug-breakdown-does-not-partition", toString dbg ++ " vs " ++ toString names⟩]) ++
